@@ -6,6 +6,9 @@ From ClapModel Require Import Base.Bytes Base.Machine Base.Utf8.
 From ClapModel Require Import Parse.Cmd Parse.Build Parse.Valid Parse.Matcher Parse.Errors Parse.Validator Parse.Parser.
 From ClapModel Require Import Gen.ErrorTables Errors.KindTable Errors.Suggest ParseProofs.ErrorSound.
 From ClapModel Require Import ParseProofs.Totality ParseProofs.Provenance ParseProofs.KindSound ParseProofs.RequiresChain.
+From ClapModel Require Import ParseProofs.Actions ParseProofs.Relations ParseProofs.RelationsComplete ParseProofs.Unparse ParseProofs.UnparseTop ParseProofs.UnparseSub
+                              ParseProofs.UnparseTree ParseProofs.UnparseX ParseProofs.UnparseXTree ParseProofs.UnparseLift
+                              ParseProofs.NoSpurious ParseProofs.NoSpuriousTree ParseProofs.NoSpuriousCheck ParseProofs.NoSpuriousExamples.
 From Coq Require Import ZArith QArith String List.
 From RecordUpdate Require Import RecordSet.
 Import RecordSetNotations.
@@ -503,3 +506,294 @@ Theorem C10_requires_if_chain_fixed :
              /\ e_kind e = EMissingRequiredArgument /\ e_arg e = [121]).
 Proof. exact requires_if_chain_fixed. Qed.
 Print Assumptions C10_requires_if_chain_fixed.
+
+(** ---------------------------------------------------------------------------------------
+    FOURTH PASS: "inputs that break no rule are not rejected" as an INDEPENDENT statement
+    (ParseProofs/NoSpurious.v: one level; NoSpuriousTree.v: trees, [parse_top], the converse; NoSpuriousCheck.v /
+    NoSpuriousExamples.v: non-vacuity and necessity witnesses).
+
+    The rules are stated on what a rendered invocation DENOTES (C02: [inv], [render_inv], [inv_occs]; C07: the
+    abstract fold [step_abs] behind [denote_os]); no function of the parser occurs in a rule:
+      (a) [count_ok_occ]  the number of values of every occurrence is inside the argument's range;
+      (b) [values_ok]     every value an occurrence stores -- the pieces of each raw value at the argument's
+                          delimiter ([pieces_of] = C14's [SplitSpec]), the default-missing values of an empty
+                          occurrence, the literal of a flag -- is in the parser's language ([in_lang]);
+      (h) [storing]       the action of the argument stores (not a help / version request);
+      (d) [no_repeat]     a Set-like argument without self-override occurs only while C07's fold over the
+                          occurrences before it holds nothing for it;
+      (e) [defaults_ok]   the default values the definition declares are in the language (configuration rule);
+      (c) [relations_rule], [shape_rule]  EVERY matcher that reports the denotation ([reports]: per argument the
+                          groups of C07's fold, explicit, with the argument's case-folding flag; a group id only if a
+                          member occurred) satisfies C03's declarative [Relations]; a level that selects no
+                          subcommand is not [subcommand_required] and not empty under [arg_required_else_help].
+    Class (boolean): C02's lifted class [wfx_inv] (exact keys; flags, clusters, all option spellings incl.
+    [require_equals], terminators, hyphen / negative-number values of options, delimiters, positional runs,
+    subcommand trees, global arguments) and [lvl_class]: no level declares an environment value, positionals
+    are indexed. *)
+
+(** the vocabulary, spelled out (by conversion: changing a definition changes these statements) *)
+Theorem C10_occ_rules_spec : forall o,
+  occ_rules o <->
+  (match a_get_action (o_arg o) with ASet | AAppend | ASetTrue | ASetFalse | ACount => true | _ => false end = true
+   /\ (exists r, a_num (o_arg o) = Some r /\ count_in_range r (N.of_nat (length (o_raw o))))
+   /\ exists vp, a_vp (o_arg o) = Some vp /\
+        forall pss,
+          Forall2 (fun v ps => match a_delim (o_arg o) with
+                               | Some d => pieces_of (encode_utf8 d) v ps
+                               | None => ps = [v] end)
+                  (match o_raw o with [] => a_default_missing (o_arg o) | _ => o_raw o end) pss ->
+          Forall (in_lang vp) (pushed (o_arg o) (concat pss))
+          /\ (a_get_action (o_arg o) = ACount -> concat pss = [] -> vp = VPCount)).
+Proof. exact occ_rules_spec. Qed.
+Print Assumptions C10_occ_rules_spec.
+
+Theorem C10_level_rules_spec : forall c os sub,
+  level_rules c os sub <->
+  (Forall occ_rules os
+   /\ (forall os1 o os2, os = os1 ++ o :: os2 -> set_family (o_arg o) = true -> self_override c (o_arg o) = false ->
+         fold_left (step_abs c (a_id (o_arg o))) os1 None = None)
+   /\ (forall a raw, In a (c_args c) ->
+         ((raw = a_default a /\ raw <> []) \/ (exists i p d, In (i, p, Some d) (a_default_ifs a) /\ raw = [d])) ->
+         storing a = true /\ values_ok a raw)
+   /\ (forall m, reports c os sub m -> Relations c m)
+   /\ (sub = true \/ (is_set s_sub_required c = false /\ (is_set s_arg_required_else_help c = false \/ os <> [])))).
+Proof. exact level_rules_spec. Qed.
+Print Assumptions C10_level_rules_spec.
+
+Theorem C10_reports_spec : forall c os sub m,
+  reports c os sub m <->
+  ((forall a, In a (c_args c) ->
+      match fold_left (step_abs c (a_id a)) os None with
+      | Some gs => exists e, fm_get (a_id a) (mt_args m) = Some e /\ m_source e <> Some SDefault /\ m_raw e = gs
+                             /\ m_ignore_case e = a_ignore_case a
+      | None => ~ (exists e, fm_get (a_id a) (mt_args m) = Some e /\ m_source e <> Some SDefault)
+      end)
+   /\ (forall k, (exists e, fm_get k (mt_args m) = Some e /\ m_source e <> Some SDefault) ->
+         (forall a, In a (c_args c) -> a_id a <> k) ->
+         exists o, In o os /\ In (o_arg o) (c_args c) /\ In k (groups_for_arg c (a_id (o_arg o))))
+   /\ is_some (mt_sub m) = sub).
+Proof. exact reports_spec. Qed.
+Print Assumptions C10_reports_spec.
+
+Theorem C10_inv_rules_spec : forall c i,
+  (inv_rules c i <->
+   level_rules c (inv_occs c i) (match i with ISub _ _ _ => true | _ => false end) /\
+   match i with
+   | ISub _ name j => match child c name with Some scb => inv_rules scb j | None => False end
+   | _ => True
+   end)
+  /\ (lvl_class c i =
+      forallb (fun a => negb (is_some (a_env a))) (c_args c) && forallb (fun p => is_some (a_index p)) (positionals c) &&
+      match i with
+      | ISub _ name j => match child c name with Some scb => lvl_class scb j | None => false end
+      | _ => true
+      end).
+Proof. exact inv_rules_spec. Qed.
+Print Assumptions C10_inv_rules_spec.
+
+(** ONE OCCURRENCE is stored, whatever its source: count inside the range (command line), values in the language,
+    a storing action, a Set-like argument absent or self-overriding (any command, any state with unique keys) *)
+Theorem C10_occurrence_accepted : forall c idn s a raw st,
+  wf_m (mt st) -> ~ In (a_id a) (groups_for_arg c (a_id a)) ->
+  (s = SCmdLine -> count_ok_occ a raw) -> storing a = true -> values_ok a raw ->
+  (set_family a = true -> mt_contains (mt st) (a_id a) = false \/ self_override c a = true) ->
+  exists st', react_core c idn s a raw None st = ROk (st', PRValuesDone).
+Proof. exact react_core_succeeds. Qed.
+Print Assumptions C10_occurrence_accepted.
+
+(** ... and conversely, by kind: a rejected command-line occurrence breaks the rule its kind names -- a count kind: (a);
+    ArgumentConflict: the argument is Set-like, does not override itself and is already stored, (d); a value kind: (b);
+    DisplayHelp / DisplayVersion: the action does not store, (h) *)
+Theorem C10_occurrence_rejection_names_rule : forall c idn a raw st e st',
+  wf_m (mt st) -> react_core c idn SCmdLine a raw None st = RErr e st' ->
+  (In (e_kind e) [EInvalidValue; EWrongNumberOfValues; ETooFewValues; ETooManyValues] /\ ~ count_ok_occ a raw)
+  \/ (e_kind e = EArgumentConflict /\ set_family a = true /\ self_override c a = false /\ mt_contains (mt st) (a_id a) = true)
+  \/ (In (e_kind e) [EInvalidUtf8; EInvalidValue; EValueValidation] /\ ~ values_ok a raw)
+  \/ (In (e_kind e) [EDisplayHelp; EDisplayVersion] /\ storing a = false).
+Proof. exact react_core_rejection_names_rule. Qed.
+Print Assumptions C10_occurrence_rejection_names_rule.
+
+(** ONE LEVEL: the fold of [react] over the occurrences succeeds, and so do the environment / default / validation
+    phases, with anything ([x]) in the subcommand slot *)
+Theorem C10_level_accepted : forall c os x, assert_app c = true -> no_env c = true -> pos_indexed_b c = true ->
+  Forall (line_occ c) os -> level_rules c os (is_some x) ->
+  exists st1 st, react_all c os ps_new = ROk st1 /\ post_loop c (ssub x st1) = ROk st /\ mt_sub (mt st1) = None.
+Proof. exact level_accepts. Qed.
+Print Assumptions C10_level_accepted.
+
+(** THE DENOTATION of a tree that breaks no rule succeeds ... *)
+Theorem C10_denotation_accepted : forall i c, wfx_inv c i = true -> lvl_class c i = true -> inv_rules c i ->
+  exists st, run_inv c i = ROk st.
+Proof. exact run_inv_ok. Qed.
+Print Assumptions C10_denotation_accepted.
+
+(** ... and so does the parse of the rendered line: INPUTS THAT BREAK NO RULE ARE NOT REJECTED *)
+Theorem C10_no_spurious_reject : forall c0 bin i, is_set s_no_binary_name c0 = false ->
+  valid (with_bin c0 bin) = true -> wfx_inv (build_self (with_bin c0 bin)) i = true ->
+  lvl_class (build_self (with_bin c0 bin)) i = true -> inv_rules (build_self (with_bin c0 bin)) i ->
+  exists m, parse_top c0 (bin :: render_inv i) = OOk m.
+Proof. exact no_spurious_reject. Qed.
+Print Assumptions C10_no_spurious_reject.
+
+(** the converse packaging: a rejected rendered line breaks a rule ... *)
+Theorem C10_rejected_breaks_rule : forall c0 bin i e, is_set s_no_binary_name c0 = false ->
+  valid (with_bin c0 bin) = true -> wfx_inv (build_self (with_bin c0 bin)) i = true ->
+  lvl_class (build_self (with_bin c0 bin)) i = true ->
+  parse_top c0 (bin :: render_inv i) = OErr e -> ~ inv_rules (build_self (with_bin c0 bin)) i.
+Proof. exact rejected_breaks_rule. Qed.
+Print Assumptions C10_rejected_breaks_rule.
+
+(** ... and the kind says which: when the occurrence rules (a) (b) (d) (h) and the default rule (e) hold at every
+    level ([inv_rules_nc] = [inv_rules] without (c)), the error has a validator kind -- it names rule (c); hence an
+    error of any other kind means that one of (a) (b) (d) (h) (e) fails at some level *)
+Theorem C10_rejection_names_relations : forall c0 bin i e, is_set s_no_binary_name c0 = false ->
+  valid (with_bin c0 bin) = true -> wfx_inv (build_self (with_bin c0 bin)) i = true ->
+  lvl_class (build_self (with_bin c0 bin)) i = true -> inv_rules_nc (build_self (with_bin c0 bin)) i ->
+  parse_top c0 (bin :: render_inv i) = OErr e ->
+  In (e_kind e) [EDisplayHelpOnMissing; EMissingSubcommand; EArgumentConflict; EMissingRequiredArgument].
+Proof. exact rejection_names_relations. Qed.
+Print Assumptions C10_rejection_names_relations.
+
+Theorem C10_inv_rules_nc_spec : forall c i,
+  (inv_rules_nc c i <->
+   (Forall occ_rules (inv_occs c i) /\ no_repeat c (inv_occs c i) /\ defaults_ok c) /\
+   match i with
+   | ISub _ name j => match child c name with Some scb => inv_rules_nc scb j | None => False end
+   | _ => True
+   end)
+  /\ (inv_rules c i -> inv_rules_nc c i).
+Proof. exact inv_rules_nc_spec. Qed.
+Print Assumptions C10_inv_rules_nc_spec.
+
+(** the level-by-level form of the denotation's outcome under the rules without (c) *)
+Theorem C10_denotation_rejection_kinds : forall i c, wfx_inv c i = true -> lvl_class c i = true -> inv_rules_nc c i ->
+  (exists st, run_inv c i = ROk st) \/
+  (exists e st, run_inv c i = RErr e st /\
+     In (e_kind e) [EDisplayHelpOnMissing; EMissingSubcommand; EArgumentConflict; EMissingRequiredArgument]).
+Proof. exact run_inv_nc. Qed.
+Print Assumptions C10_denotation_rejection_kinds.
+
+(** what C03's [Relations] reads of a matcher: of an explicit entry its values and its case-folding flag ... *)
+Theorem C10_relations_read : forall c mt mt',
+  (forall i, cview mt i = cview mt' i) -> is_some (mt_sub mt) = is_some (mt_sub mt') ->
+  Relations c mt -> Relations c mt'.
+Proof. exact Relations_cview. Qed.
+Print Assumptions C10_relations_read.
+
+(** ... which, on a level without groups, the denotation determines; so rule (c) is decided by the validator's
+    answer on the matcher the denotation ends in, both ways *)
+Theorem C10_reports_determine : forall c os sub m m', c_groups c = [] ->
+  reports c os sub m -> reports c os sub m' -> forall i, cview m i = cview m' i.
+Proof. exact reports_determine. Qed.
+Print Assumptions C10_reports_determine.
+
+Theorem C10_relations_rule_decide : forall c os x, assert_app c = true -> c_groups c = [] ->
+  Forall (line_occ c) os -> Forall occ_rules os -> no_repeat c os -> defaults_ok c ->
+  (forall st1 st3, react_all c os ps_new = ROk st1 -> add_defaults c (ssub x st1) = ROk st3 ->
+                   validate c (mt st3) = VOk) ->
+  relations_rule c os (is_some x).
+Proof. exact relations_rule_decide. Qed.
+Print Assumptions C10_relations_rule_decide.
+
+Theorem C10_relations_rule_refute : forall c os x, assert_app c = true -> no_env c = true -> pos_indexed_b c = true ->
+  Forall (line_occ c) os -> Forall occ_rules os -> no_repeat c os -> defaults_ok c -> shape_rule c os (is_some x) ->
+  (forall st1 st, react_all c os ps_new = ROk st1 -> post_loop c (ssub x st1) <> ROk st) ->
+  ~ relations_rule c os (is_some x).
+Proof. exact relations_rule_refute. Qed.
+Print Assumptions C10_relations_rule_refute.
+
+(** the matcher a level ends in REPORTS its denotation (what rule (c) quantifies over is what the parser builds) *)
+Theorem C10_final_matcher_reports : forall c os x st1 st3, assert_app c = true ->
+  Forall (line_occ c) os -> Forall occ_rules os -> no_repeat c os ->
+  react_all c os ps_new = ROk st1 -> add_defaults c (ssub x st1) = ROk st3 ->
+  reports c os (is_some x) (mt st3).
+Proof. exact final_matcher_reports. Qed.
+Print Assumptions C10_final_matcher_reports.
+
+(** NON-VACUITY: [prog --req A -n 300 -vv --mu a,b c -x F run --key=K] for
+    prog -r/--req <v> (required)  -n/--num <i64 in -5..=300>  -q/--quiet (conflicts_with verbose)  -v/--verbose (Count)
+         -m/--mu <v>{1..3} (Append, delimiter ",")  -x/--ex (requires num)  -d/--def <i64 in 0..=9> (default "7")
+         -p/--pair <v>{2}  <f>   subcommand run: -k/--key <v> (required):
+    the class and every rule hold at both levels; the parse reports the denoted values *)
+Theorem C10_no_spurious_reject_nonvacuous :
+  (is_set s_no_binary_name NsrEx.c0 = false /\ valid (with_bin NsrEx.c0 NsrEx.bin) = true /\
+   wfx_inv NsrEx.c NsrEx.ninv = true /\ lvl_class NsrEx.c NsrEx.ninv = true /\
+   render_inv NsrEx.ninv =
+     [[45; 45; 114; 101; 113]; [65]; [45; 110]; [51; 48; 48]; [45; 118; 118]; [45; 45; 109; 117]; [97; 44; 98]; [99];
+      [45; 120]; [70]; [114; 117; 110]; [45; 45; 107; 101; 121; 61; 75]]) /\
+  inv_rules NsrEx.c NsrEx.ninv /\
+  exists mm sm,
+    parse_top NsrEx.c0 (NsrEx.bin :: render_inv NsrEx.ninv) = OOk mm /\ ms_sub mm = Some (NsrEx.s_run, sm) /\
+    NsrEx.raw_of [114] mm = Some [[[65]]] /\ NsrEx.raw_of [110] mm = Some [[[51; 48; 48]]] /\ NsrEx.raw_of [118] mm = Some [[[50]]] /\
+    NsrEx.raw_of [109] mm = Some [[[97]; [98]; [99]]] /\ NsrEx.raw_of [120] mm = Some [[s_true]] /\ NsrEx.raw_of [100] mm = Some [[[55]]] /\
+    NsrEx.raw_of [102] mm = Some [[[70]]] /\ NsrEx.raw_of [107] sm = Some [[[75]]].
+Proof. split; [exact NsrEx.ex_class|]. split; [exact NsrEx.ex_rules|exact NsrEx.ex_parse]. Qed.
+Print Assumptions C10_no_spurious_reject_nonvacuous.
+
+(** EACH RULE IS NECESSARY: lines of the class (same program) on which the rule named fails while the others
+    hold, rejected with the kind that names the rule *)
+(** (a) [prog --req A --pair B]: one value for an option declared with two -> WrongNumberOfValues(pair) *)
+Theorem C10_rule_count_necessary :
+  NsrEx.in_class NsrEx.c0 NsrEx.ia /\
+  Forall (fun o => storing (o_arg o) = true /\ values_ok (o_arg o) (o_raw o)) (inv_occs NsrEx.c NsrEx.ia) /\
+  no_repeat NsrEx.c (inv_occs NsrEx.c NsrEx.ia) /\ defaults_ok NsrEx.c /\
+  ~ Forall (fun o => count_ok_occ (o_arg o) (o_raw o)) (inv_occs NsrEx.c NsrEx.ia) /\
+  NsrEx.rejected NsrEx.c0 NsrEx.ia EWrongNumberOfValues [112].
+Proof. exact NsrEx.need_count. Qed.
+Print Assumptions C10_rule_count_necessary.
+
+(** (b) [prog --req A -n 301]: outside -5..=300 -> ValueValidation(num) *)
+Theorem C10_rule_language_necessary :
+  NsrEx.in_class NsrEx.c0 NsrEx.ib /\
+  Forall (fun o => storing (o_arg o) = true /\ count_ok_occ (o_arg o) (o_raw o)) (inv_occs NsrEx.c NsrEx.ib) /\
+  no_repeat NsrEx.c (inv_occs NsrEx.c NsrEx.ib) /\ defaults_ok NsrEx.c /\
+  ~ Forall (fun o => values_ok (o_arg o) (o_raw o)) (inv_occs NsrEx.c NsrEx.ib) /\
+  NsrEx.rejected NsrEx.c0 NsrEx.ib EValueValidation [110].
+Proof. exact NsrEx.need_language. Qed.
+Print Assumptions C10_rule_language_necessary.
+
+(** (h) [prog --req A --help] -> DisplayHelp *)
+Theorem C10_rule_storing_necessary :
+  NsrEx.in_class NsrEx.c0 NsrEx.ih /\ ~ Forall (fun o => storing (o_arg o) = true) (inv_occs NsrEx.c NsrEx.ih) /\
+  NsrEx.rejected NsrEx.c0 NsrEx.ih EDisplayHelp [].
+Proof. exact NsrEx.need_storing. Qed.
+Print Assumptions C10_rule_storing_necessary.
+
+(** (d) [prog --req A --req B] -> ArgumentConflict(req) *)
+Theorem C10_rule_no_repeat_necessary :
+  NsrEx.in_class NsrEx.c0 NsrEx.id_ /\ Forall occ_rules (inv_occs NsrEx.c NsrEx.id_) /\ defaults_ok NsrEx.c /\
+  ~ no_repeat NsrEx.c (inv_occs NsrEx.c NsrEx.id_) /\ NsrEx.rejected NsrEx.c0 NsrEx.id_ EArgumentConflict [114].
+Proof. exact NsrEx.need_no_repeat. Qed.
+Print Assumptions C10_rule_no_repeat_necessary.
+
+(** (c) [prog -n 3] -> MissingRequiredArgument(req); [prog --req A -q -v] -> ArgumentConflict(quiet);
+        [prog --req A -x] -> MissingRequiredArgument(num) *)
+Theorem C10_rule_relations_necessary :
+  (NsrEx.in_class NsrEx.c0 NsrEx.ic1 /\ Forall occ_rules (inv_occs NsrEx.c NsrEx.ic1) /\ no_repeat NsrEx.c (inv_occs NsrEx.c NsrEx.ic1) /\
+   defaults_ok NsrEx.c /\ shape_rule NsrEx.c (inv_occs NsrEx.c NsrEx.ic1) false /\
+   ~ relations_rule NsrEx.c (inv_occs NsrEx.c NsrEx.ic1) false /\ NsrEx.rejected NsrEx.c0 NsrEx.ic1 EMissingRequiredArgument [114]) /\
+  (NsrEx.in_class NsrEx.c0 NsrEx.ic2 /\ Forall occ_rules (inv_occs NsrEx.c NsrEx.ic2) /\ no_repeat NsrEx.c (inv_occs NsrEx.c NsrEx.ic2) /\
+   defaults_ok NsrEx.c /\ shape_rule NsrEx.c (inv_occs NsrEx.c NsrEx.ic2) false /\
+   ~ relations_rule NsrEx.c (inv_occs NsrEx.c NsrEx.ic2) false /\ NsrEx.rejected NsrEx.c0 NsrEx.ic2 EArgumentConflict [113]) /\
+  (NsrEx.in_class NsrEx.c0 NsrEx.ic3 /\ Forall occ_rules (inv_occs NsrEx.c NsrEx.ic3) /\ no_repeat NsrEx.c (inv_occs NsrEx.c NsrEx.ic3) /\
+   defaults_ok NsrEx.c /\ shape_rule NsrEx.c (inv_occs NsrEx.c NsrEx.ic3) false /\
+   ~ relations_rule NsrEx.c (inv_occs NsrEx.c NsrEx.ic3) false /\ NsrEx.rejected NsrEx.c0 NsrEx.ic3 EMissingRequiredArgument [110]).
+Proof. exact (conj NsrEx.need_relations_required (conj NsrEx.need_relations_conflict NsrEx.need_relations_requires)). Qed.
+Print Assumptions C10_rule_relations_necessary.
+
+(** (e) the same program with [default_value("77")] on --def (i64 in 0..=9), line [prog --req A] -> ValueValidation(def) *)
+Theorem C10_rule_defaults_necessary :
+  NsrEx.in_class NsrEx.c0e NsrEx.ie /\ Forall occ_rules (inv_occs NsrEx.ce NsrEx.ie) /\ no_repeat NsrEx.ce (inv_occs NsrEx.ce NsrEx.ie) /\
+  ~ defaults_ok NsrEx.ce /\ NsrEx.rejected NsrEx.c0e NsrEx.ie EValueValidation [100].
+Proof. exact NsrEx.need_defaults. Qed.
+Print Assumptions C10_rule_defaults_necessary.
+
+Theorem C10_necessity_vocabulary : forall k0 i k a,
+  (NsrEx.in_class k0 i <->
+   is_set s_no_binary_name k0 = false /\ valid (with_bin k0 NsrEx.bin) = true /\
+   wfx_inv (build_self (with_bin k0 NsrEx.bin)) i = true /\ lvl_class (build_self (with_bin k0 NsrEx.bin)) i = true) /\
+  (NsrEx.rejected k0 i k a <->
+   exists e, parse_top k0 (NsrEx.bin :: render_inv i) = OErr e /\ e_kind e = k /\ e_arg e = a) /\
+  NsrEx.c = build_self (with_bin NsrEx.c0 NsrEx.bin) /\ NsrEx.ce = build_self (with_bin NsrEx.c0e NsrEx.bin).
+Proof. exact necessity_vocabulary. Qed.
+Print Assumptions C10_necessity_vocabulary.
